@@ -542,11 +542,11 @@ def build_streams(rng, tier):
     thorough = tier == "thorough"
     h1, h2, h3 = {}, {}, {}
     seq, lock, wrap, odd = [], [], [], []
-    for _ in range(60000 if thorough else 5000):
+    for _ in range(30000 if thorough else 5000):
         seq += gen_seq(rng, h1)
-    for _ in range(6000 if thorough else 400):
+    for _ in range(3000 if thorough else 400):
         lock += gen_lock(rng, h2)
-    for _ in range(20000 if thorough else 1500):
+    for _ in range(10000 if thorough else 1500):
         wrap += gen_wrap(rng, h3)
     for _ in range(300 if thorough else 60):
         odd += gen_odd(rng)
